@@ -570,7 +570,7 @@ def _run_legacy(case):
                 try:
                     (space.place_agent if kind == "place" else space.move_agent)(o, _to_py(p, form))
                 except Exception as e:  # noqa: BLE001
-                    if want is None and "out of bounds" in str(e):
+                    if want is None and type(e) is Exception:      # the kind of error, never its message
                         after = view(i, check=False)
                         if after != before and not state["dead"]:
                             fails.add(f"C10/legacy/{kind}_agent/rejected-call-changed-state", i, f"{kind}_agent(agent {a}, x16 {p}) on the bounded space raised '{e}' but changed the space: before {before}, after {after}")
@@ -593,7 +593,7 @@ def _run_legacy(case):
                 try:
                     space.remove_agent(o)
                 except Exception as e:  # noqa: BLE001
-                    if a not in shadow and "does not exist" in str(e):
+                    if a not in shadow and type(e) is Exception:
                         obs.append([-1, E_NOTIN, SEP] + view(i))
                         continue
                     raise
@@ -775,7 +775,7 @@ def _run_exp(case):
                     try:
                         live[a].position = _to_py(p, form)
                     except ValueError as e:
-                        if want is None and "outside the bounds" in str(e):
+                        if want is None:
                             after = view(i, check=False)
                             if after != before and not state["dead"]:
                                 fails.add("C10/exp/position/rejected-call-changed-state", i, f"agent {a}.position = x16 {p} raised but changed the space: before {before}, after {after}")
@@ -1371,7 +1371,7 @@ def _run_float(case):
                 try:
                     call()
                 except Exception as e:  # noqa: BLE001
-                    if acc is None and ("out of bounds" in str(e) or "outside the bounds" in str(e)):
+                    if acc is None and type(e) in (Exception, ValueError):
                         if snapshot() != before:
                             fail(f"{K}/rejected-call-changed-state", i, f"{op} was rejected ('{e}') but changed the space: before {before}, after {snapshot()}")
                             fails.add(f"C18/continuous/{'legacy-' + kind if legacy else 'exp-position'}", i, f"rejected {op} changed state")
@@ -1396,7 +1396,7 @@ def _run_float(case):
                     try:
                         space.remove_agent(objs[a])
                     except Exception as e:  # noqa: BLE001
-                        if a not in shadow and "does not exist" in str(e):
+                        if a not in shadow and type(e) is Exception:
                             check_state(i)
                             obs.append([-1, len(shadow)])
                             continue
